@@ -24,8 +24,7 @@ open Gotlcp.Spec
 
 /-- the parameters of the tree under test (regenerated on every run) -/
 def P : Params :=
-  { floor := Facts.dtlcp.replayFloor, newCeil := Facts.dtlcp.replayNewCeil,
-    spanCeil := Facts.dtlcp.replaySpanCeil, default := Facts.dtlcp.defaultReplayWindowSize }
+  treeParams Facts.dtlcp.defaultReplayWindowSize
 
 /-- which invalid input `readRecordOrCCS` drops once the handshake is complete (regenerated) -/
 def Q : RxParams :=
@@ -33,12 +32,13 @@ def Q : RxParams :=
                   Facts.dtlcp.replayRxRecordDecryptFail == "discard",
     dropMalformed := Facts.dtlcp.replayRxRecordMalformedDrops == Facts.dtlcp.replayRxRecordHeaderChecks }
 
-/-- What the other theorems use from the source: the floor literal is 32; distances are
-compared with a width that is capped at 64 either in `newReplayWindow` or in `check`; the
-bitmap is a `uint64`; the default size is 64; every construction site passes
-`Config.ReplayWindow` (when positive, else the default) to `newReplayWindow`; nothing the
-extractor looked for is missing.  On the tree before the repair of F7 this does not hold
-(`replayNewCeil = none` and `replaySpanCeil = none`) and nothing below compiles.
+/-- What the other theorems use from the source.  The window code itself (floor 32, width capped at
+the 64 bits of the bitmap) is NOT pinned by text-matching facts any more: `P` is
+`Model.Replay.treeParams` and `Gotlcp.Tie.Replay` proves the functions translated from
+dtlcp/replay.go equal to the model with exactly these parameters (`C16_src_*` below); on the tree
+before the repair of F7 those tie proofs fail.  Pinned here: the bitmap is a `uint64`; the default
+size is 64; every construction site passes `Config.ReplayWindow` (when positive, else the default) to
+`newReplayWindow`; nothing the extractor looked for is missing.
 Receive paths: in `ReadFrom` and in `readRecordOrCCS` the header's epoch and sequence number
 are copied into the MAC / additional-data input before `decrypt`, the number handed to
 `replayWindow.check` is the header's complete 48-bit sequence number (all six bytes), and the only
@@ -49,7 +49,6 @@ theorem C16_facts :
     goodParams P = true ∧
     Facts.dtlcp.replayBitmapBits = 64 ∧
     Facts.dtlcp.defaultReplayWindowSize = 64 ∧
-    Facts.dtlcp.replayNewShapeKnown = true ∧
     Facts.dtlcp.replayNewSitesUniform = true ∧
     Facts.dtlcp.replayRxReadFromOrder = ["decrypt", "epoch<", "epoch>", "check"] ∧
     Facts.dtlcp.replayRxRecordOrder = ["decrypt", "epoch<", "epoch>", "check"] ∧
